@@ -32,3 +32,6 @@ ASSUMPTIONS = [
     "fault configuration asserts exact-or-raises per block; fault-free configuration asserts exact equality and exhaustion at nsamps",
     "dtype of yielded arrays is compared only through values (bit-exact when the dtype is the file dtype)",
 ]
+
+# dimensions added in seeded rounds 6 and 7
+PROBES = list(PROBES) + ["plan-made-before-the-previous-one-was-consumed", "read_block-between-making-and-iterating-a-plan", "integer-arguments-as-numpy-scalars"]
